@@ -30,9 +30,10 @@ def cases(tier, seed):
     for c in REGRESSION:
         yield dict(c, kind="prog", stream="corpus")
     cfgs = [
-        (0.5, P.small_cfg()),
-        (0.3, P.Cfg(max_bits=10, depth=3, stmts=3)),
-        (0.2, P.Cfg(max_bits=12 if tier == "quick" else 16, depth=3 if tier == "quick" else 4, stmts=4, widths=[2, 3, 4, 5, 6, 7, 8, 12])),
+        (0.4, P.small_cfg()),
+        (0.25, P.Cfg(max_bits=10, depth=3, stmts=3)),
+        (0.25, P.collections_cfg()),
+        (0.1, P.Cfg(max_bits=12 if tier == "quick" else 16, depth=3 if tier == "quick" else 4, stmts=4, widths=[2, 3, 4, 5, 6, 7, 8, 12])),
     ]
     for w, cfg in cfgs:
         pg = P.PG(rng, cfg)
